@@ -114,6 +114,12 @@ MUTANTS = [
      "                inter = left_ss.intersection(right_ss)\n                if inter:\n                    result.append(left_ss)", "fitch step: left set kept when the sets meet"),
     ("C16", "dendropy/model/parsimony.py", "                        score_by_character_list[n] += wt", "                        score_by_character_list[n] += 1", "fitch step: per-character score ignores the weight"),
     ("C16", "dendropy/model/parsimony.py", "                        wt = 1\n", "                        wt = 1\n                        continue\n", "fitch step: unsupported statement (must be undecided, not a violation)"),
+    ("C04", "dendropy/calculate/treecompare.py", "                           dist_fn=df,\n                           edge_weight_attr=edge_weight_attr,\n                           value_type=value_type,\n                           is_bipartitions_updated=is_bipartitions_updated)",
+     "                           dist_fn=df,\n                           edge_weight_attr=edge_weight_attr,\n                           value_type=value_type,\n                           is_bipartitions_updated=not is_bipartitions_updated)",
+     "euclidean_distance: the caller's flag negated (round 5's seed)"),
+    ("C05", "dendropy/datamodel/treecollectionmodel.py", "                is_bipartitions_updated=is_bipartitions_updated,\n                default_edge_length_value=self.default_edge_length_value)",
+     "                is_bipartitions_updated=True,\n                default_edge_length_value=self.default_edge_length_value)", "add_tree: count_splits_on_tree told the encoding is current whatever the caller said"),
+    ("C14", "dendropy/calculate/treemeasure.py", "is_bipartitions_updated=is_bipartitions_updated", "is_bipartitions_updated=True", "patristic_distance: mrca told the encoding is current"),
     ("C11", "dendropy/datamodel/charmatrixmodel.py", "                taxon = char_matrix.taxon_namespace.require_taxon(key,\n                        is_case_sensitive=case_sensitive_taxon_labels)",
      "                taxon = char_matrix.taxon_namespace.require_taxon(label=key)", "from_dict: the case flag is not handed to require_taxon"),
     ("C16", "dendropy/model/parsimony.py", "        set_node_state_sets(nd, result)\n", "        set_node_state_sets(nd, left_ssl)\n", "fitch glue: the left child's list is stored for the node"),
